@@ -124,7 +124,7 @@ class Panoptica_Statistic:
 
                 if len(value) > 0:
                     value = float(value)
-                    if value is not None and not np.isnan(value) and value != np.inf:
+                    if value is not None and not np.isnan(value) and not np.isinf(value):
                         value_dict[group_name][metric_name].append(float(value))
                     else:
                         value_dict[group_name][metric_name].append(None)
